@@ -411,8 +411,9 @@ FULL = {
 }
 # reduced pool for the deepest level: one representative per (type, linear?, class family)
 REDUCED = {
-    'leaves': ['Mat33', 'Pow3', 'L1_3', 'QF3', 'IP3', 'MatCC', 'PowC', 'L2sqC'],
-    'scalars': ['2', '0', '1j'],
+    'leaves': ['Mat33', 'Pow3', 'Aff3', 'L1_3', 'L2sqT3', 'QF3', 'IP3', 'Norm3',
+               'MatCC', 'PowC', 'L2sqC'],
+    'scalars': ['2', '0.5', '0', '1j'],
     'vecs': ['v3', 'v2', 'vc'],
     'plain': ['neg'],
     'pows': [2],
@@ -521,7 +522,9 @@ def level(pool, n):
     for _ in range(n):
         nxt = []
         for c in cur:
-            nxt.extend(r for r in roots_over(c, pool) if not unspecified(r))
+            # `@` forms build the same objects as their `*` twins: judged as roots, not reused
+            nxt.extend(r for r in roots_over(c, pool)
+                       if not unspecified(r) and r[0] not in ALIAS)
         cur = nxt
     return cur
 
